@@ -172,44 +172,43 @@ theorem ruleOK_fence (P) (codeOn : Bool) : RuleOK P (ruleFence codeOn) := by
     · rw [h'] at h; cases h; exact ⟨rfl, rfl, rfl, rfl⟩
     · rw [h'] at h; cases h; exact ⟨rfl, rfl, rfl, by rw [pushFull_level0]⟩
 
-/-- what `paragraph` returns on a call from the loop whose range ends at `lineMax` -/
-theorem paragraph_shape (terms : List BRule) (hin : ∀ t ∈ terms, SilentInert t) (ws : List Nat)
-    (s : BState) (line endLine : Nat) (hc : CallCtx TopCtx s line endLine) :
-    ∃ next c, line + 1 ≤ next ∧ next ≤ endLine ∧ ruleParagraph terms ws s line endLine false = .ok (true,
+/-- what `paragraph` returns on a call from the loop (it scans to `state.lineMax`, whatever `endLine` it is given) -/
+theorem paragraph_shape (P : BState → Nat → Prop) (terms : List BRule) (hin : ∀ t ∈ terms, SilentInert t) (ws : List Nat)
+    (s : BState) (line endLine : Nat) (hc : CallCtx P s line endLine) :
+    ∃ next c, line + 1 ≤ next ∧ next ≤ s.lineMax ∧ ruleParagraph terms ws s line endLine false = .ok (true,
       { (((({ s with parentType := "paragraph", line := next }).pushFull "paragraph_open" "p" 1 (some (line, next)) none "" "" "").pushFull
           "inline" "" 0 (some (line, next)) (some []) c "" "").pushFull "paragraph_close" "p" (-1) none none "" "" "") with
         parentType := s.parentType }) := by
-  have hE : endLine = s.lineMax := hc.extra
   have hlenE : s.lineMax < s.lines.length := by have := hc.len; omega
   obtain ⟨next, h1, h2, h3⟩ := paraScan_ok terms hin { s with parentType := "paragraph" } s.lineMax hlenE
-    (s.lineMax - line + 1) (line + 1) (by omega) (by have := hc.lt; omega)
+    (s.lineMax - line + 1) (line + 1) (by omega) (by have := hc.lt; have := hc.le; omega)
   simp only [ruleParagraph, h1]
   obtain ⟨c, hcx⟩ := getLinesB_ok { s with parentType := "paragraph" } line next s.blkIndent false (by simp; omega)
   simp only [hcx]
-  exact ⟨next, _, h2, by omega, rfl⟩
+  exact ⟨next, _, h2, h3, rfl⟩
 
-theorem ruleOK_paragraph (terms : List BRule) (hin : ∀ t ∈ terms, SilentInert t) (ws : List Nat) :
-    RuleOK TopCtx (ruleParagraph terms ws) := by
+theorem ruleOK_paragraph (P : BState → Nat → Prop) (terms : List BRule) (hin : ∀ t ∈ terms, SilentInert t) (ws : List Nat) :
+    RuleOK P (ruleParagraph terms ws) := by
   refine ⟨?_, ?_, ?_, ?_⟩
   · intro s line endLine hc
-    obtain ⟨n, c, _, _, h⟩ := paragraph_shape terms hin ws s line endLine hc
+    obtain ⟨n, c, _, _, h⟩ := paragraph_shape P terms hin ws s line endLine hc
     exact ⟨_, _, h⟩
   · intro s line endLine s' hc h
-    obtain ⟨n, c, h1, h2, h'⟩ := paragraph_shape terms hin ws s line endLine hc
-    rw [h'] at h; cases h; simp; have := hc.le; omega
+    obtain ⟨n, c, h1, h2, h'⟩ := paragraph_shape P terms hin ws s line endLine hc
+    rw [h'] at h; cases h; simp; omega
   · intro s line endLine s' hc h
-    obtain ⟨n, c, h1, h2, h'⟩ := paragraph_shape terms hin ws s line endLine hc
+    obtain ⟨n, c, h1, h2, h'⟩ := paragraph_shape P terms hin ws s line endLine hc
     rw [h'] at h; cases h
   · intro s line endLine m s' hc h
-    obtain ⟨n, c, h1, h2, h'⟩ := paragraph_shape terms hin ws s line endLine hc
+    obtain ⟨n, c, h1, h2, h'⟩ := paragraph_shape P terms hin ws s line endLine hc
     rw [h'] at h; cases h
     refine ⟨rfl, rfl, rfl, ?_⟩
     simp [BState.pushFull]
 
-theorem paragraph_always (terms : List BRule) (hin : ∀ t ∈ terms, SilentInert t) (ws : List Nat) :
-    AlwaysMatches TopCtx (ruleParagraph terms ws) := by
+theorem paragraph_always (P : BState → Nat → Prop) (terms : List BRule) (hin : ∀ t ∈ terms, SilentInert t) (ws : List Nat) :
+    AlwaysMatches P (ruleParagraph terms ws) := by
   intro s line endLine hc
-  obtain ⟨n, c, _, _, h⟩ := paragraph_shape terms hin ws s line endLine hc
+  obtain ⟨n, c, _, _, h⟩ := paragraph_shape P terms hin ws s line endLine hc
   exact ⟨_, h⟩
 
 /-- every rule of every modelled chain satisfies its contract -/
@@ -229,12 +228,12 @@ theorem miniChain_ok (c : MiniCfg) (ws : List Nat) : ∀ r ∈ miniChain c ws, R
   · split at hr
     · simp at hr; subst hr; exact ruleOK_heading _ _ _
     · cases hr
-  · subst hr; exact ruleOK_paragraph _ (miniTerminators_inert c ws) ws
+  · subst hr; exact ruleOK_paragraph _ _ (miniTerminators_inert c ws) ws
 
 theorem miniChain_last (c : MiniCfg) (ws : List Nat) : ∃ r ∈ miniChain c ws, AlwaysMatches TopCtx r :=
-  ⟨ruleParagraph (miniTerminators c ws) ws, by simp [miniChain], paragraph_always _ (miniTerminators_inert c ws) ws⟩
+  ⟨ruleParagraph (miniTerminators c ws) ws, by simp [miniChain], paragraph_always _ _ (miniTerminators_inert c ws) ws⟩
 
-theorem initBState_len (src : List Char) : (initBState src).lines.length = (initBState src).lineMax + 1 := by
+theorem initBState_len (src : List Char) : (initBState src).lineMax + 1 ≤ (initBState src).lines.length := by
   simp [initBState]
 
 /-- **C01.mini_total** — for every source text, every subset of the optional rules `code`, `fence`, `hr`,
